@@ -317,6 +317,8 @@ package bondmachine
 //@   frameonly
 //@   loop 1: invariant forall k int :: 0 <= k && k < $i ==> machineLoaded(result.Domains[k], bmachj.Domains[k])
 
+//@ props C10
+
 // ---- attaching a benchmark core ---------------------------------------------------------------------------------
 
 // Facts about endpoint names that the uninterpreted string model cannot derive (assumed; each use is listed in the
